@@ -48,6 +48,14 @@ PROPS["C10"] = {
     "explanation": "validation vs pinned constraint tables", "assumptions": ["topology.get_owner_node replaced by a harness-controlled answer in the per-type harnesses"],
 }
 
+PROPS["C12"] = {
+    "modules": ["harness.c12"], "level": "model_checking", "design_ref": "DESIGN.md 2/C12",
+    "level_text": "Delegation sets and pool families are built from symbolic ids (pooled, so aliasing is the solver's), formats, pool names and "
+                  "unbounded/short details; encode/decode, rejection rules and pools -> per-node delegations -> pools are postconditions over all assignments.",
+    "level_note": XH_NOTE + " <=3 delegations, <=2 pools, 3 nodes; reserved pool name '_' and empty details are outside the claim.",
+    "explanation": "delegations/pools encode and regroup", "assumptions": [],
+}
+
 NOT_APPLICABLE = {
     "C01": "every value on the GraphML/JSON text path crosses expat/lxml/json C code and temp files, where a symbolic value is "
            "concretised; what remains would be concrete sampling, i.e. a different technique (store-level half is decided under C04/C20)",
